@@ -268,6 +268,13 @@ def run(ctx: Ctx) -> None:
                     dd = compare.diff(a, b, 1e-12)
                     if dd is not None:
                         ctx.violation("C13/one_frame_scene_differs_from_frame_score", dict(scn.info, frame_id=frame_id, first_difference=dd[:400]), tap="comparator")
+                    # (the first frame's tracking score has an empty previous frame, exactly the history of a one-frame scene)
+                    a, b = compare.metrics_digest(res.metrics_score)["tracking"], compare.metrics_digest(scene)["tracking"]
+                    if a or b:
+                        ctx.count("C13.one_frame_tracking_scenes")
+                        dd = compare.diff(a, b, 1e-12)
+                        if dd is not None:
+                            ctx.violation("C13/one_frame_scene_differs_from_frame_score:tracking", dict(scn.info, frame_id=frame_id, first_difference=dd[:400]), tap="comparator")
                     # ---- pooled AP does not depend on the order frames were added
                     order = list(range(nF))
                     r.shuffle(order)
